@@ -18,6 +18,21 @@ facts from the trace lines of c13_run.py.  Timing ties are accepted either way.
                     blocking operation of the task completes
   O8 group cancel   the same for the one-shot cancellation a task group sends to its host task when the first of its
                     children fails: no unshielded blocking operation of the group's body started after it completes
+  O1c in progress   an unshielded blocking operation that is IN PROGRESS when the deadline of an enclosing scope passes
+                    does not complete later than that tick (the scope's timer cancels the task: CancelledError at its next step)
+  O7b in progress   an unshielded blocking operation in progress when an external cancel() arrives does not complete
+                    (asyncio throws CancelledError into the task at its next step; operations that clean up first —
+                    TaskGroup.start(), Condition.wait() — must re-raise it)
+  O9 unowned        nobody's cancellation: an operation of the main task raises CancelledError, or the program ends
+                    cancelled, although no enclosing scope was cancelled, no external cancel() was issued and no task group
+                    had a reason to cancel its host ("after a scope exits the task carries no leftover cancellation request")
+
+"Blocking operation" = every checkpoint of the backend / task-group API the programs use: sleep, sleep_until,
+sleep_forever, coro_yield, TaskGroup.start(), Task.join()/wait()/join_or_cancel(), Event.wait(), Lock.acquire(),
+Condition.wait(), run_in_thread(abandon_on_cancel=True), a future awaited directly.  Shielded by themselves (they must
+complete, O6): cancel_shielded_coro_yield, run_in_thread() (abandon_on_cancel=False).  Operations of a `finally` clean-up
+(`tryf`) run while an exception is on its way out: a one-shot cancellation (O7/O8) has been delivered by then, so they
+are not counted as "completed after the cancel"; a cancelled scope keeps re-delivering, so O1 applies to them.
 
 Operations that fail (`fwait` of a harness future resolved with FutError, `join` of a failing child, `fail`) end with
 `err` / class `ferr`: a shielded coroutine that ends with the error of what it awaited did run to completion (O6
@@ -38,25 +53,44 @@ class Static:
         self.scopes: dict[int, list[int]] = {}     # stmt id -> enclosing scope ids in its task, inner first
         self.shielded: dict[int, bool] = {}
         self.task: dict[int, int] = {}             # stmt id -> child stmt id, -1 = main
+        self.cleanup: dict[int, bool] = {}         # stmt id -> inside the `finally` part of a `tryf` of its task
+        self.groups: dict[int, list[int]] = {}     # stmt id -> enclosing group ids in its task, inner first
+        self.parent_group: dict[int, int] = {}     # child / start / soon block id -> the group that runs it
         tree = c13_run.parse(prog)
-        self._walk(tree, [], False, -1)
+        self._walk(tree, [], False, -1, False, [])
 
-    def _walk(self, stmts, scopes, sh, task) -> None:
+    def _walk(self, stmts, scopes, sh, task, cl, groups) -> None:
         for sid, w, kids in stmts:
             self.scopes[sid] = list(scopes)
             self.shielded[sid] = sh
             self.task[sid] = task
+            self.cleanup[sid] = cl
+            self.groups[sid] = list(groups)
             op = w[0]
             if op == "scope":
-                self._walk(kids, [sid] + scopes, sh, task)
+                self._walk(kids, [sid] + scopes, sh, task, cl, groups)
             elif op == "shield":
-                self._walk(kids, scopes, True, task)
+                self._walk(kids, scopes, True, task, cl, groups)
             elif op in ("try", "trye"):
-                self._walk(kids, scopes, sh, task)
+                self._walk(kids, scopes, sh, task, cl, groups)
+            elif op == "tryf":
+                body, cleanup = c13_run.split_finally(kids)
+                self._walk(body, scopes, sh, task, cl, groups)
+                for k in kids:
+                    if k[1][0] == "finally":
+                        self.scopes[k[0]], self.shielded[k[0]], self.task[k[0]] = list(scopes), sh, task
+                        self.cleanup[k[0]], self.groups[k[0]] = cl, list(groups)
+                self._walk(cleanup, scopes, sh, task, True, groups)
             elif op == "group":
-                self._walk(kids, scopes, sh, task)
-            elif op == "child":
-                self._walk(kids, [], False, sid)
+                self._walk(kids, scopes, sh, task, cl, [sid] + groups)
+            elif op in c13_run.CHILD_BLOCKS:
+                if groups:
+                    self.parent_group[sid] = groups[0]
+                self._walk(kids, [], False, sid, False, [])
+
+    def unshielded_op(self, sid: int) -> bool:
+        """a blocking operation a cancellation may interrupt: no ignore_cancellation around it, not shielded by itself"""
+        return not self.shielded[sid] and not c13_run.is_shielded_op(self.words[sid])
 
 
 def _kv(parts: list[str]) -> dict[str, str]:
@@ -69,10 +103,18 @@ def judge(case: dict, real: list[str]) -> str | None:
     W = st.words
     lines = [ln.split() for ln in real]
     for ln in real:
-        if ln.startswith("harness-exc") or ln == "assertion" or " error:" in ln or ln.startswith("deadlock"):
+        if ln.startswith("harness-exc") or ln == "assertion" or " error:" in ln:
             return f"unexpected: {ln}"
-    if real and real[-1] == "overrun":
-        return "unexpected: overrun (the program did not terminate)"
+    if real and (real[-1] == "overrun" or real[-1].startswith("deadlock")):
+        hung = _start_hang(st, W, lines)
+        if hung is not None:
+            return hung
+        if real[-1] == "overrun":
+            return "unexpected: overrun (the program did not terminate)"
+        return f"unexpected: {real[-1]}"
+    for ln in real:
+        if ln.startswith("deadlock"):
+            return f"unexpected: {ln}"
 
     # asyncio.TaskGroup calls parent.cancel()/uncancel() itself: the cancelling() accounting of the host task is then
     # not attributable to scopes and external cancels alone
@@ -91,23 +133,31 @@ def judge(case: dict, real: list[str]) -> str | None:
     ext_pos: list[int] = []
     own_errors: set[str] = set()          # classes of the errors operations of the program ended with by themselves
     inner_cancel = False                  # the task awaited something that ended cancelled by itself (join of an aborted child)
-    grp_pos: list[tuple[int, int]] = []   # (trace position, group id): first failing child of a group of the main task
+    grp_pos: list[tuple[int, int]] = []   # (trace position, group id): a group of the main task cancelled its host (`gcancel`)
     grp_failed: set[int] = set()
     grp_open: set[int] = set()
-    parent_of: dict[int, int] = {}        # child stmt id -> its group stmt id
-    for gsid, w in enumerate(W):
-        if w[0] == "group":
-            depth = 0
-            for j in range(gsid + 1, len(W)):
-                o = W[j][0]
-                if o == "endgroup" and depth == 0:
-                    break
-                if o == "child" and depth == 0:
-                    parent_of[j] = gsid
-                if o in c13_run.OPEN:
-                    depth += 1
-                elif o in c13_run.OPEN.values():
-                    depth -= 1
+    parent_of: dict[int, int] = st.parent_group     # child / start / soon block id -> its group stmt id
+    exit_called: dict[int, bool] = {}     # scope id -> cancel_called() at its exit (pre-pass; absent = never exited)
+    for p in lines:
+        if p[0] == "exit":
+            exit_called[int(p[1])] = "called=1" in p
+    blk_t: dict[int, int] = {}
+    blk_bits: dict[int, str] = {}
+    gjoin: dict[int, tuple[int, str, int]] = {}      # group id -> (tick, cc bits, external cancels so far) when its body ended
+    # start() on a task group that is shutting down: the new child is cancelled before its first step.  A start() that
+    # then ends with CancelledError (its child was cancelled, not the caller) is the operation's own outcome, like the
+    # RuntimeError ("is shutting down") create_task() raises one turn later: not an interruption of a shield (see
+    # docs/C13.md section 5.4: before commit f0fd355 such a start(), run under a shield, never returned)
+    started = {int(p[1]) for p in lines if p[0] == "cin"}
+    aborted_start: set[int] = set()
+    failed_so_far: set[int] = set()
+    for p in lines:
+        if p[0] == "cout" and p[3] not in ("ok", "cancel") and int(p[1]) in parent_of:
+            failed_so_far.add(parent_of[int(p[1])])
+        elif p[0] == "exc" and W[int(p[1])][0] == "start" and int(p[1]) not in started:
+            g = st.groups[int(p[1])]
+            if g and g[0] in failed_so_far:
+                aborted_start.add(int(p[1]))
     INF = float("inf")
 
     for pos, p in enumerate(lines):
@@ -126,14 +176,35 @@ def judge(case: dict, real: list[str]) -> str | None:
             own_errors.add("*")
         elif k == "gin":
             grp_open.add(int(p[1]))
+        elif k == "gjoin":
+            gjoin[int(p[1])] = (int(p[2]), "" if p[3] == "-" else p[3], ext_seen)
         elif k == "gout":
             grp_open.discard(int(p[1]))
+            g = int(p[1])
+            if (p[3] == "ok" and g in gjoin and not st.shielded[g] and int(p[2]) > gjoin[g][0]
+                    and not (swallow_seen and ext_seen > 0)):
+                # TaskGroup.__aexit__ waited for its children (time passed): an unshielded blocking operation like any other
+                t1, bits, ext_at_join = gjoin[g]
+                t2 = int(p[2])
+                if "1" in bits and not (st.cleanup[g] and (ext_seen > 0 or grp_failed)):
+                    return (f"O1 interrupt: the join of task group {g} (TaskGroup.__aexit__ waiting for its children from {t1} "
+                            f"to {t2}) started inside a cancelled scope (cc={bits}) and completed")
+                for j, s_ in enumerate(st.scopes[g]):
+                    d = deadline.get(s_, INF)
+                    if bits[j:j + 1] == "0" and t1 <= d < t2:
+                        return (f"O1c interrupt: the join of task group {g} (TaskGroup.__aexit__) was in progress (since {t1}) when "
+                                f"the deadline {d} of scope {s_} passed, yet it completed at {t2}")
+                if st.task[g] == -1 and ext_seen > ext_at_join:
+                    return (f"O7b external: the join of task group {g} (TaskGroup.__aexit__) was in progress (since {t1}) when an "
+                            f"external cancel() arrived, yet it completed at {t2}")
         elif k == "cout":
             g = parent_of.get(int(p[1]))
             if g is not None and p[3] not in ("ok", "cancel") and g not in grp_failed:
                 grp_failed.add(g)
-                if st.task[g] == -1 and g in grp_open:
-                    grp_pos.append((pos, g))
+        elif k == "gcancel":
+            g = int(p[1])
+            if st.task[g] == -1 and g in grp_open:
+                grp_pos.append((pos, g))
         elif k == "enter":
             sid = int(p[1])
             enter_t[sid] = int(p[2])
@@ -151,22 +222,45 @@ def judge(case: dict, real: list[str]) -> str | None:
             op = W[sid][0]
             if st.shielded[sid]:
                 if done_at.get(sid) == "exc":
-                    return f"O6 shield: blocking operation {sid} inside ignore_cancellation raised CancelledError"
+                    if sid in aborted_start:
+                        inner_cancel = True
+                    else:
+                        return f"O6 shield: blocking operation {sid} inside ignore_cancellation raised CancelledError"
                 continue
-            if op == "syield":
+            if c13_run.is_shielded_op(W[sid]):
                 if done_at.get(sid) == "exc":
-                    return f"O6 shield: cancel_shielded_coro_yield {sid} raised CancelledError"
+                    return f"O6 shield: cancel-shielded operation {sid} ({' '.join(W[sid])}) raised CancelledError"
                 continue
+            blk_t[sid] = t
             enc = st.scopes[sid]
             bits = "" if cc == "-" else cc
+            blk_bits[sid] = bits
             if len(bits) != len(enc):
                 return f"unexpected: scope stack of {sid} is {cc}, statically {enc}"
-            if "1" in bits and done_at.get(sid) == "ret" and not (swallow_seen and ext_seen > 0):
-                # (user code that swallows an external CancelledError can make a scope lose its re-delivery: see docs/C13.md)
+            if ("1" in bits and done_at.get(sid) == "ret" and not (swallow_seen and ext_seen > 0)
+                    and not (st.cleanup[sid] and (ext_seen > 0 or grp_failed))):
+                # (user code that swallows an external CancelledError — or runs checkpoints in a `finally` while a one-shot
+                #  CancelledError that a shield had postponed is on its way out — can make a scope lose its re-delivery:
+                #  __deliver_cancellation gives up while a delayed cancel with another message is pending; docs/C13.md 5.3)
                 return f"O1 interrupt: operation {sid} started at {t} inside a cancelled scope (cc={cc}) completed"
             for j, s in enumerate(enc):
                 if bits[j] == "0" and t > deadline.get(s, INF):
                     return f"O1 interrupt: operation {sid} started at {t} after the deadline {deadline[s]} of scope {s}, scope not cancelled"
+        elif k == "ret" and int(p[1]) in blk_t:
+            sid, t = int(p[1]), int(p[2])
+            if not (swallow_seen and ext_seen > 0):
+                for j, s_ in enumerate(st.scopes[sid]):
+                    d = deadline.get(s_, INF)
+                    # (a scope that already had cancel_called() when the operation started is O1's business; its timer is gone)
+                    if blk_bits[sid][j:j + 1] == "0" and blk_t[sid] <= d < t:
+                        return (f"O1c interrupt: operation {sid} ({' '.join(W[sid])}) was in progress (since {blk_t[sid]}) when the "
+                                f"deadline {d} of scope {s_} passed, yet it completed at {t}")
+        elif k == "exc" and st.task[int(p[1])] == -1 and int(p[1]) in blk_t:
+            sid = int(p[1])
+            if (ext_seen == 0 and not grp_failed and not inner_cancel
+                    and not any(exit_called.get(s_, True) for s_ in st.scopes[sid])):
+                return (f"O9 unowned: operation {sid} ({' '.join(W[sid])}) raised CancelledError at {p[2]} although no enclosing "
+                        f"scope was cancelled and nobody cancelled the task")
         elif k == "exit":
             sid, t = int(p[1]), int(p[2])
             kv = _kv(p[3:])
@@ -209,21 +303,35 @@ def judge(case: dict, real: list[str]) -> str | None:
             left = kv.get("left", "-")
             if "cs.__deliver_cancellation" in left or "cs.cancel" in left.split(","):
                 return f"O5 leftover: scope handles alive after the task ended: {left}"
+            if p[2] == "cancel" and ext_seen == 0 and not grp_failed and not inner_cancel:
+                return "O9 unowned: the program ended cancelled although nobody cancelled the task from outside"
             if int(kv["cancelling"]) != ext_seen and not has_group:
                 if uncaught_exit_seen:
                     return f"O5 leftover[uncaught-exit]: task ended with cancelling()={kv['cancelling']}, external cancels={ext_seen}"
                 return f"O5 leftover[end]: task ended with cancelling()={kv['cancelling']}, external cancels={ext_seen}"
 
+    # O7b: the operation in progress when an external cancel() arrives does not complete
+    for pos in ext_pos:
+        parked = None
+        for p in lines[:pos]:
+            if p[0] == "blk" and st.task[int(p[1])] == -1:
+                parked = int(p[1])
+            elif p[0] in ("ret", "exc", "err", "icancel") and parked is not None and int(p[1]) == parked:
+                parked = None
+        if parked is not None and st.unshielded_op(parked) and done_at.get(parked) == "ret":
+            return (f"O7b external: operation {parked} ({' '.join(W[parked])}) was in progress when the external cancel() "
+                    f"arrived at {lines[pos][1]}, yet it completed")
+
     # O7: external cancel is not lost
     lost: list[tuple[int, int]] = []      # (trace position of the lost cancel, first operation that completed after it)
     for pos in ext_pos:
         later = lines[pos + 1:]
-        if any(p[0] == "swallow" or (p[0] == "exit" and "caught=1" in p) for p in later):
+        if any(_absorbs(st, p) for p in later):
             continue     # absorbed by a racing scope catch / user code
         for p in later:
             if p[0] == "blk":
                 sid = int(p[1])
-                if st.task[sid] != -1 or st.shielded[sid] or W[sid][0] == "syield":
+                if st.task[sid] != -1 or not st.unshielded_op(sid) or st.cleanup[sid]:
                     continue
                 if done_at.get(sid) == "ret":
                     lost.append((pos, sid))
@@ -236,18 +344,20 @@ def judge(case: dict, real: list[str]) -> str | None:
     # O8: the cancellation a task group sends to its host when a child fails is not lost either
     lost = []
     for pos, g in grp_pos:
+        # (pos = the `gcancel` line: the group cancels its host from the done-callback of the failed child, one loop turn
+        #  after the child's last step, before or after the host's own step of that turn)
         later = []
         for p in lines[pos + 1:]:
             if p[0] == "gout" and int(p[1]) == g:
                 break
             later.append(p)
-        if any(p[0] == "swallow" or (p[0] == "exit" and "caught=1" in p) for p in later):
+        if any(_absorbs(st, p) for p in later):
             continue
         body = _body_ids(W, g)
         for p in later:
             if p[0] == "blk":
                 sid = int(p[1])
-                if sid not in body or st.task[sid] != -1 or st.shielded[sid] or W[sid][0] == "syield":
+                if sid not in body or st.task[sid] != -1 or not st.unshielded_op(sid) or st.cleanup[sid]:
                     continue
                 if done_at.get(sid) == "ret":
                     lost.append((pos, sid, g))
@@ -257,6 +367,35 @@ def judge(case: dict, real: list[str]) -> str | None:
         return (f"O8 group cancel[{how}]: operation {lost[0][1]} of the body of task group {lost[0][2]} started after a "
                 f"child failed (the group cancelled its host task) and completed")
     return None
+
+
+def _start_hang(st: "Static", W, lines) -> str | None:
+    """the run did not terminate: is a task parked for ever in a cancel-shielded TaskGroup.start() whose child never
+    ran (cancelled before its first step: the group aborted in the loop turn in which start() created it)?"""
+    parked: dict[int, int] = {}           # task -> blk stmt
+    for p in lines:
+        if p[0] == "blk":
+            parked[st.task[int(p[1])]] = int(p[1])
+        elif p[0] in ("ret", "exc", "err", "icancel") and parked.get(st.task[int(p[1])]) == int(p[1]):
+            del parked[st.task[int(p[1])]]
+    started = {int(p[1]) for p in lines if p[0] == "cin"}
+    for sid in parked.values():
+        if W[sid][0] == "start" and st.shielded[sid] and sid not in started:
+            return (f"O6 shield[start-hang]: TaskGroup.start() {sid} run under ignore_cancellation never returned: the task group "
+                    f"aborted and cancelled the new child before its first step, so nobody resolves the future start() waits "
+                    f"for, and the cancellation the group sent to its host was swallowed by the shield")
+    return None
+
+
+def _absorbs(st: Static, p: list[str]) -> bool:
+    """trace events after which a one-shot cancellation may legitimately be gone: user code swallowed it (`try`), a
+    cancelled scope caught the CancelledError that carried it (racing scope cancel), or clean-up code of a `finally`
+    ended with an error of its own, which replaces the CancelledError on its way out (plain Python semantics)"""
+    if p[0] == "swallow" or (p[0] == "exit" and "caught=1" in p):
+        return True
+    if p[0] in ("err", "raise") or (p[0] == "imm" and p[3] == "err"):
+        return st.cleanup[int(p[1])]
+    return False
 
 
 def _body_ids(W, g: int) -> set[int]:
@@ -277,7 +416,7 @@ def _body_ids(W, g: int) -> set[int]:
 
 def _tick(p: list[str]) -> int | None:
     if p[0] in ("blk", "ret", "exc", "err", "icancel", "imm", "do", "enter", "exit", "sin", "sout", "gin", "gout", "cin",
-                "cout", "swallow", "caught", "raise", "fut") and len(p) > 2:
+                "cout", "swallow", "caught", "raise", "fut", "fin", "spawn", "gcancel", "gjoin") and len(p) > 2:
         return int(p[2])
     if p[0] in ("ext", "end", "deadlock") and len(p) > 1:
         return int(p[1])
@@ -311,14 +450,14 @@ def _merged_with_redelivery(st: Static, W, lines, pos: int) -> bool:
             parked = (i, p)
         elif k in ("ret", "exc", "err", "icancel") and parked is not None and p[1] == parked[1][1]:
             parked = None
-    if depth == 0 and not (parked is not None and W[int(parked[1][1])][0] == "syield"):
+    if depth == 0 and not (parked is not None and c13_run.is_shielded_op(W[int(parked[1][1])])):
         return False
     # the cancellation stays postponed until the task's next unshielded checkpoint: shielded sections that follow one
     # another without a checkpoint in between form one section
     end = len(lines) - 1
     for i in range(pos, len(lines)):
         p = lines[i]
-        if p[0] == "blk" and st.task[int(p[1])] == -1 and not st.shielded[int(p[1])] and W[int(p[1])][0] != "syield":
+        if p[0] == "blk" and st.task[int(p[1])] == -1 and st.unshielded_op(int(p[1])):
             end = i
             break
     end_tick = next((t for t in (_tick(lines[i]) for i in range(end, -1, -1)) if t is not None), 0)
@@ -397,7 +536,7 @@ def completed_under_cancelled_scope(prog: list[str], real: list[str]) -> bool:
         p = ln.split()
         if p[0] == "blk" and "1" in p[3]:
             sid = int(p[1])
-            if not st.shielded[sid] and st.words[sid][0] != "syield":
+            if st.unshielded_op(sid):
                 flagged.add(sid)
         elif p[0] == "ret" and int(p[1]) in flagged:
             return True
@@ -411,6 +550,8 @@ def key_of(why: str) -> str:
         return "leftover-cancelling,exit-without-catch"
     if why.startswith("O5 leftover[end]"):
         return "leftover-cancelling,task-end"
+    if why.startswith("O6 shield[start-hang]"):
+        return "start-never-returns,shielded,child-cancelled-before-first-step"
     if why.startswith("O7 external[merged]") or why.startswith("O8 group cancel[merged]"):
         return "ext-cancel-lost,shielded,scope-cancel-interleaved"
     return why.split(":")[0].replace(" ", "-").replace("[", "-").replace("]", "")
@@ -436,9 +577,14 @@ def features(case: dict, real: list[str]) -> str | None:
                 tags.add("uncaught-exit")
         elif p[0] == "ext" and p[2] == "0":
             tags.add("ext")
-        elif p[0] == "blk" and len(p) > 3 and "1" in p[3]:
-            w = case["prog"][int(p[1])].split()[0]
-            tags.add("cancelled-syield" if w == "syield" else "blk-in-cancelled")
+        elif p[0] == "blk" and len(p) > 3:
+            w = case["prog"][int(p[1])].split()
+            if w[0] in ("start", "pwait", "twait", "joinc", "sleepu", "forever"):
+                tags.add("op-" + (w[1] if w[0] == "pwait" else w[0]))
+            if "1" in p[3]:
+                tags.add("cancelled-syield" if w[0] == "syield" else "blk-in-cancelled")
+        elif p[0] == "fin":
+            tags.add("finally")
         elif p[0] == "cin":
             tags.add("child")
         elif p[0] == "err":
